@@ -882,11 +882,21 @@ func (s *SecureChannel) renew(instance *channelInstance) error {
 	return s.open(context.Background(), instance, ua.SecurityTokenRequestTypeRenew)
 }
 
+// expirationDelay returns how long after its creation a security token stops
+// being accepted.
+//
+// https://reference.opcfoundation.org/v104/Core/docs/Part4/5.5.2/#5.5.2.1
+// Clients should accept Messages secured by an expired SecurityToken for up to 25 % of the token lifetime.
+//
+// Like renewalDelay it is computed on the duration itself and not on whole
+// seconds, which would expire a token with a lifetime of less than 0.8s
+// immediately.
+func expirationDelay(lifetime time.Duration) time.Duration {
+	return lifetime / 4 * 5
+}
+
 func (s *SecureChannel) scheduleExpiration(instance *channelInstance) {
-	// https://reference.opcfoundation.org/v104/Core/docs/Part4/5.5.2/#5.5.2.1
-	// Clients should accept Messages secured by an expired SecurityToken for up to 25 % of the token lifetime.
-	const expireAfter = 1.25
-	when := instance.createdAt.Add(time.Second * time.Duration(instance.revisedLifetime.Seconds()*expireAfter))
+	when := instance.createdAt.Add(expirationDelay(instance.revisedLifetime))
 
 	debug.Printf("uasc %d: security token expires at %s. channelID=%d tokenID=%d", s.c.ID(), when.UTC().Format(time.RFC3339), instance.secureChannelID, instance.securityTokenID)
 
@@ -902,23 +912,19 @@ func (s *SecureChannel) scheduleExpiration(instance *channelInstance) {
 	s.instancesMu.Lock()
 	defer s.instancesMu.Unlock()
 
-	oldInstances := s.instances[instance.securityTokenID]
-
-	s.instances[instance.securityTokenID] = []*channelInstance{}
-
+	// The table is keyed by the secure channel id (see
+	// handleOpenSecureChannelResponse), not by the token id. Drop exactly the
+	// expired instance: a server may hand out the same token id again on
+	// renewal, so the token id does not identify it.
+	oldInstances := s.instances[instance.secureChannelID]
+	kept := make([]*channelInstance, 0, len(oldInstances))
 	for _, oldInstance := range oldInstances {
-		if oldInstance.secureChannelID != instance.secureChannelID {
-			// something has gone horribly wrong!
-			debug.Printf("uasc %d: secureChannelID mismatch during scheduleExpiration!", s.c.ID())
-		}
-		if oldInstance.securityTokenID == instance.securityTokenID {
+		if oldInstance == instance {
 			continue
 		}
-		s.instances[instance.securityTokenID] = append(
-			s.instances[instance.securityTokenID],
-			oldInstance,
-		)
+		kept = append(kept, oldInstance)
 	}
+	s.instances[instance.secureChannelID] = kept
 }
 
 func (s *SecureChannel) sendRequestWithTimeout(
